@@ -56,6 +56,8 @@ func (a Action) String() string {
 			return fmt.Sprintf("run newpolicy.sh, SIGKILL before command [%s...]", a.Before)
 		}
 		return fmt.Sprintf("run newpolicy.sh, SIGKILL before command %d", a.K)
+	case "killcompile":
+		return "run whose script is killed while the compiler works, second run started at once"
 	case "conc":
 		s := fmt.Sprintf("%d simultaneous invocations (stagger %d ms)", a.N, a.StaggerMs)
 		if a.Wrapper {
@@ -229,6 +231,7 @@ func (e *eval) step(a Action, final bool) error {
 	before := e.last
 	var undisturbed *runResult // a single run that ended by itself
 	isRun := false
+	overlapCheck := false
 	var runs []string // ids of the invocations of this action
 
 	switch a.Op {
@@ -318,6 +321,54 @@ func (e *eval) step(a Action, final bool) error {
 				undisturbed = &r
 			}
 		}
+
+	case "killcompile":
+		// The script is killed (only the script, not its children) while the
+		// compiler runs; a second invocation starts at once. As long as the
+		// orphaned compiler works in next/, nobody else may.
+		isRun = true
+		e.class("act:killcompile")
+		p1, err := w.start(false, true, false, 0, "", "C19_COMPILE_KILLS_SCRIPT=0.4")
+		if err != nil {
+			return err
+		}
+		r1, err := w.waitQ(p1, false)
+		if err != nil {
+			return err
+		}
+		runs = append(runs, r1.id)
+		if !r1.killed {
+			// nothing to compile (up to date) or the commit does not compile
+			e.class("killcompile:not-reached")
+			if err := w.quiesce(p1.cmd.Process.Pid); err != nil {
+				return err
+			}
+			if r1.exit >= 0 {
+				undisturbed = &r1
+			}
+			break
+		}
+		e.nt = true
+		e.class("kill:during-compile")
+		p2, err := w.start(false, true, false, 0, "")
+		if err != nil {
+			w.quiesce(p1.cmd.Process.Pid)
+			return err
+		}
+		r2, err := w.wait(p2)
+		if err != nil {
+			w.quiesce(p1.cmd.Process.Pid)
+			return err
+		}
+		runs = append(runs, r2.id)
+		e.logf("    %s killed during compile; %s started at once: exit=%d", r1.id, r2.id, r2.exit)
+		if r2.exit == 1 {
+			e.class("killcompile:second-refused")
+		}
+		if err := w.quiesce(p1.cmd.Process.Pid); err != nil {
+			return err
+		}
+		overlapCheck = true
 
 	case "conc":
 		isRun = true
@@ -443,7 +494,7 @@ func (e *eval) step(a Action, final bool) error {
 	}
 
 	// (d) at most one newpolicy.sh works on the database at a time.
-	if a.Op == "conc" {
+	if a.Op == "conc" || overlapCheck {
 		e.checkOverlap(a, newRecs, runs)
 	}
 
